@@ -110,7 +110,14 @@ pub fn run_interp(c: &BlockCase) -> String {
   let mut core = setup(c);
   let p = &mut core.memory as *mut MemoryAreas;
   verif_trace::start();
-  let st = interpreter::run_code_block(&mut core.registers, p);
+  let mut st;
+  loop {
+    // the interpreter ends ROM blocks at region ends exactly like the translator; go on until the guest terminator ran
+    let ip = core.registers.ip as usize;
+    let term = ip >= 0x8000 || ends_with_terminator(&core, ip);
+    st = interpreter::run_code_block(&mut core.registers, p);
+    if term { break; }
+  }
   let tr = verif_trace::take();
   outcome(&mut core, st, c, tr)
 }
@@ -119,9 +126,12 @@ pub fn run_interp(c: &BlockCase) -> String {
 fn ends_with_terminator(core: &Core, ip: usize) -> bool {
   let mut index = ip;
   loop {
-    if index != ip && !crate::mem::can_dynarec(index) { return false; }
-    let seg = core.cache.get_executable_memory_segment(index, core.memory.as_ptr());
-    let (op, len, _) = crate::decoder::decode(seg);
+    if crate::mem::rom_block_must_end(ip, index) { return false; }
+    if index >= 0x8000 { return true; }
+    // decode through the bus so that instructions straddling a region end are seen as the interpreter sees them
+    let p = &core.memory as *const MemoryAreas;
+    let bytes = [memory_read_byte(p, index as u16), memory_read_byte(p, (index + 1) as u16), memory_read_byte(p, (index + 2) as u16)];
+    let (op, len, _) = crate::decoder::decode(&bytes);
     if op.is_block_end() { return true; }
     index += len;
   }
@@ -135,19 +145,19 @@ pub fn run_jit(c: &BlockCase) -> String {
   let mut st;
   loop {
     let ip = core.registers.ip as usize;
+    let term = ip >= 0x8000 || ends_with_terminator(&core, ip);
     if crate::mem::can_dynarec(ip) {
-      let term = ends_with_terminator(&core, ip);
+      core.cache.set_rom_bank(core.memory.get_rom_bank());
       let addr = match core.cache.get_address_for_ip(ip) {
         Some(a) => a,
         None => core.cache.translate_code_block(&core.memory.rom, ip, core.memory.as_ptr()),
       };
       st = core.cache.call(addr, &mut core.registers);
-      if term { break; }
     } else {
       let p = &mut core.memory as *mut MemoryAreas;
       st = interpreter::run_code_block(&mut core.registers, p);
-      break;
     }
+    if term { break; }
   }
   let tr = verif_trace::take();
   outcome(&mut core, st, c, tr)
